@@ -180,9 +180,9 @@ def run_probes(ctx, src, probes, target, res, std="gnu2x"):
             return
         # clang cannot take the whole batch (it lacks some C23 spellings): judge the probes cproc rejects one by one
         lines = src.split("\n")
-        head = [l for l in lines if not re.match(r"\s*(static )?int k\d+ = ", l)]
+        head = [l for l in lines if not re.search(r"\bint k\d+ = ", l)]
         for l in lines:
-            if not re.match(r"\s*(static )?int k\d+ = ", l):
+            if not re.search(r"\bint k\d+ = ", l):
                 continue
             one = "\n".join(head + [l]) + "\n"
             q = cproc.cc(ctx, one.encode(), target, "plain", timeout=60)
@@ -299,6 +299,87 @@ def literal_check(case, ctx):
     run_probes(ctx, "\n".join(lines) + "\n", probes, target, res)
     res.keys.extend(sha([p[2], target]) for p in probes) if res.fail is None else None
     res.sample = {"target": target, "literals": [p[2] for p in probes[:5]]}
+    return res
+
+
+# ---- enumeration constants ---------------------------------------------------------------------------
+
+ENUM_VALUES = [-2147483648, -2147483647, -32769, -32768, -129, -128, -1, 0, 1, 127, 128, 255, 256, 32767, 65535, 65536, 2147483646, 2147483647]
+
+
+def enumconst_enum(ctx):
+    for ti in range(3):
+        yield {"t": ti}
+
+
+def _spellings(v):
+    """C spellings of the value v whose *expression* types differ (int, long, long long, unsigned, char, ...)."""
+    a = abs(v)
+    neg = "-" if v < 0 else ""
+    out = ["%s%d" % (neg, a), "%s%dL" % (neg, a), "%s%dLL" % (neg, a), "(long)%s%dLL" % (neg, a), "%s0x%xL" % (neg, a), "(%s%dL + 0)" % (neg, a),
+           "(1 ? %s%dL : 0)" % (neg, a), "%s%d - 1 + 1" % (neg, a - 1 if a else 0) if a > 1 else "%s%d" % (neg, a)]
+    if v >= 0:
+        out += ["%dU" % a, "%dUL" % a, "0%oull" % a, "(unsigned char)%d" % a if a < 256 else "(unsigned short)%d" % a if a < 65536 else "%du" % a,
+                "sizeof(char[%d])" % a if 0 < a < 70000 else "%dul" % a]
+    if -128 <= v < 128:
+        out += ["(signed char)%d" % v, "(short)%d" % v]
+    if v in (0, 1):
+        out += ["(_Bool)%d" % v, "%d == 1" % v]
+    if v == 97:
+        out += ["'a'"]
+    return out
+
+
+def enumconst_check(case, ctx):
+    """An enumeration constant whose value is representable as int has type int whatever the type of its initialiser
+    (C11 6.7.2.2p3, unchanged by C23 6.7.2.2p12 for such values); so has the implicit successor.  With a fixed underlying
+    type the constants have that type."""
+    res = Result()
+    target = cproc.TARGETS[case["t"]]
+    lines, probes = [], []
+    i = 0
+    INT = tindex(cm.INT)
+    for v in ENUM_VALUES + [97]:
+        for sp in _spellings(v):
+            n = len(probes)
+            # (no successor after INT_MAX: a value outside int gives all constants of the enum its own type in C23)
+            lines.append(("enum { EK%d = %s, EN%d, EM%d = EK%d };" if v < 2147483647 else "enum { EK%d = %s, EM%d = EK%d };") % ((n, sp, n, n, n) if v < 2147483647 else (n, sp, n, n)))
+            lines[-1] += " int k%d = _Generic(EK%d, %s);" % (n, n, GLIST)
+            probes.append(("k%d" % n, INT, "enum { EK = %s }; EK" % sp, "enumconst", None, None, False))
+            n2 = len(probes)
+            lines[-1] += " int k%d = _Generic(EM%d, %s);" % (n2, n, GLIST)
+            probes.append(("k%d" % n2, INT, "enum { EK = %s, EM = EK }; EM" % sp, "enumconst", None, None, False))
+            if v < 2147483647:
+                n3 = len(probes)
+                lines[-1] += " int k%d = _Generic(EN%d, %s);" % (n3, n, GLIST)
+                probes.append(("k%d" % n3, INT, "enum { EK = %s, EN }; EN" % sp, "enumconst", None, None, False))
+    for ut, lo, hi in (("signed char", -128, 127), ("unsigned char", 0, 255), ("short", -32768, 32767), ("unsigned short", 0, 65535), ("int", -2147483648, 2147483647),
+                       ("unsigned int", 0, 4294967295), ("long", -9223372036854775807 - 1, 9223372036854775807), ("unsigned long", 0, 18446744073709551615)):
+        want = GENERIC_TYPES.index(ut) + 1
+        for v in (lo, hi, 0, None):
+            sp = "" if v is None else ("%d" % v) if v != -9223372036854775808 else "(-9223372036854775807L - 1)"
+            if v is not None and v > 9223372036854775807:
+                sp += "ul"
+            n = len(probes)
+            if v is None:
+                # implicit first enumerator (value 0) and its successor
+                lines.append("enum F%d : %s { FK%d, FL%d };" % (n, ut, n, n))
+                lines[-1] += " int k%d = _Generic(FL%d, %s);" % (n, n, GLIST)
+                probes.append(("k%d" % n, want, "enum F : %s { FK, FL }; FL" % ut, "enumconst", None, None, False))
+                continue
+            lines.append("enum F%d : %s { FK%d = %s };" % (n, ut, n, sp))
+            lines[-1] += " int k%d = _Generic(FK%d, %s);" % (n, n, GLIST)
+            probes.append(("k%d" % n, want, "enum F : %s { FK = %s }; FK" % (ut, sp), "enumconst", None, None, False))
+    # typeof / typeof_unqual of type names and of expressions (C23 6.7.2.5): which qualifiers survive
+    lines.append("extern const int tc0[3]; struct tq { int m; };")
+    for dcl, e, want in (("typeof_unqual(const int) tu1", "&tu1", 7), ("typeof_unqual(const int *const) tu2", "&tu2", 9), ("const typeof_unqual(int) tu3", "&tu3", 8), ("typeof(const int) tu4", "&tu4", 8),
+                         ("typeof_unqual(tc0[0]) tu5", "&tu5", 7), ("typeof(tc0[0]) tu6", "&tu6", 8), ("typeof_unqual(const struct tq) tu7", "&tu7", 10)):
+        n = len(probes)
+        lines.append("extern %s; int k%d = _Generic(%s, int *: 7, const int *: 8, const int **: 9, struct tq *: 10, int (*)[3]: 11, const int (*)[3]: 12, default: 0);" % (dcl, n, e))
+        probes.append(("k%d" % n, want, "typeof-probe " + e, "typeof", None, None, False))
+    run_probes(ctx, "\n".join(lines) + "\n", probes, target, res)
+    res.keys.extend(sha([p[2], target]) for p in probes) if res.fail is None else None
+    res.sample = {"target": target, "enumerators": [p[2] for p in probes[:5]]}
     return res
 
 
@@ -523,6 +604,7 @@ def compat_check(case, ctx):
 def sources(ctx):
     return [
         Source("literals", literal_check, enum=literal_enum, exhaustive=True),
+        Source("enumconst", enumconst_check, enum=enumconst_enum, exhaustive=True),
         Source("pointers", ptr_check, enum=ptr_enum, exhaustive=True),
         Source("triples", triples_check, enum=triples_enum, exhaustive=True),
         Source("nested", nested_check, strategy=lambda c: nested_cases(), examples={"quick": 600, "thorough": 20000}),
